@@ -18,6 +18,7 @@ type C17Case struct {
 	BufSize int `json:",omitempty"`
 	Matcher int
 	Props   [3]int
+	Frag    int `json:",omitempty"` // size of the Write calls the input is handed over in (0 = one Write)
 }
 
 func init() {
@@ -47,10 +48,18 @@ func c17Case(r *core.Run, p C17Case) {
 	pan := core.Guard(func() {
 		if p.API == "xz" {
 			cfg := XZCfg{Props: true, LC: p.Props[0], LP: p.Props[1], PB: p.Props[2], DictCap: p.DictCap, BufSize: p.BufSize, Matcher: p.Matcher}
-			outLen = len(mustLibXZ(cfg, data))
+			var parts []int
+			for n := 0; p.Frag > 0 && n+p.Frag < len(data); n += p.Frag {
+				parts = append(parts, p.Frag)
+			}
+			outLen = len(mustLibXZ(cfg, data, parts...))
 		} else {
 			cfg := L2Cfg{Props: true, LC: p.Props[0], LP: p.Props[1], PB: p.Props[2], DictCap: p.DictCap, BufSize: p.BufSize, Matcher: p.Matcher}
-			outLen = len(mustLibLZMA2(cfg, data, nil))
+			var steps []L2Step
+			for n := 0; p.Frag > 0 && n+p.Frag < len(data); n += p.Frag {
+				steps = append(steps, L2Step{"w", p.Frag})
+			}
+			outLen = len(mustLibLZMA2(cfg, data, steps))
 		}
 	})
 	if pan != nil {
@@ -79,7 +88,7 @@ func c17Case(r *core.Run, p C17Case) {
 
 func runC17(r *core.Run) {
 	th := thorough(r)
-	r.Rule = "finite grid, enumerated completely: runs of every byte value 0..255 x lengths x both matchers; X‖X for fixed generator seeds x |X| x matchers x DictCap (|X| <= DictCap); incompressible data seeds x lengths incl. 64 KiB / 2 MiB chunk limits x DictCap>=64KiB x BufSize x lc/lp/pb corners, xz and raw LZMA2; oracle = the three numeric bounds of the statement with the 128 B/stream + 64 B/block allowance. non-trivial = distinct (family, matcher, size, dictionary, ratio bucket)"
+	r.Rule = "finite grid, enumerated completely: runs of every byte value 0..255 x lengths x both matchers; X‖X for fixed generator seeds x |X| x matchers x DictCap (|X| <= DictCap); incompressible data seeds x lengths incl. 64 KiB / 2 MiB chunk limits x DictCap>=64KiB x BufSize x lc/lp/pb corners, xz and raw LZMA2; a sub-grid with the input handed over in Write calls of 250 / 700 / 4096 bytes; oracle = the three numeric bounds of the statement with the 128 B/stream + 64 B/block allowance. non-trivial = distinct (family, matcher, size, dictionary, ratio bucket)"
 	var cases []C17Case
 	def := [3]int{3, 0, 2}
 	// runs
@@ -147,6 +156,23 @@ func runC17(r *core.Run) {
 							cases = append(cases, C17Case{Family: "random", API: api, Seed: s, N: n, DictCap: dc, BufSize: bs, Matcher: m, Props: c})
 						}
 					}
+				}
+			}
+		}
+	}
+	// the same bounds when the input is handed over in many small Write calls (a Write is not a Flush)
+	for _, fr := range []int{250, 700, 4096} {
+		for m := 0; m < 2; m++ {
+			for _, api := range []string{"xz", "lzma2"} {
+				if m == 0 {
+					cases = append(cases, C17Case{Family: "run", API: api, Byte: 5, N: 300000, DictCap: 1 << 20, Props: def, Frag: fr})
+				} else {
+					cases = append(cases, C17Case{Family: "run", API: api, Byte: 5, N: 65536, DictCap: 4096, Matcher: 1, Props: def, Frag: fr})
+				}
+				cases = append(cases, C17Case{Family: "xx", API: api, Seed: 1, N: 30000, DictCap: 1 << 16, Matcher: m, Props: def, Frag: fr})
+				cases = append(cases, C17Case{Family: "random", API: api, Seed: 2, N: 131072, DictCap: 1 << 16, BufSize: 4096, Matcher: m, Props: def, Frag: fr})
+				if th || fr == 250 {
+					cases = append(cases, C17Case{Family: "random", API: api, Seed: 3, N: 1 << 20, DictCap: 1 << 20, BufSize: 4096, Props: def, Frag: fr})
 				}
 			}
 		}
